@@ -32,7 +32,8 @@ class AbstractSMCSampler(object):
     def sample(self):
         self._init_swarm()
 
-        self._resample_swarm()
+        if self.iteration < self.num_iterations:
+            self._resample_swarm()
 
         while self.iteration < self.num_iterations:
             self._update_swarm()
